@@ -29,6 +29,15 @@ def parseVerdict : String → Option Verdict
   | "quit" => some .quit
   | _ => none
 
+/-- the `bg <k> <commits> <ballast> [blk:fid ...]` suffix of a get line: what a concurrent writer
+committed right after the k-th read transaction of the filter database within the call -/
+def parseBg (ws : List String) : List (Nat × Nat) :=
+  match ws.dropWhile (· != "bg") with
+  | "bg" :: _ :: _ :: _ :: rest => (bracket rest).1.map (fun t => match t.splitOn ":" with
+      | [b, f] => (nat! b, nat! f)
+      | _ => (0, 0))
+  | _ => []
+
 def parseCall (ws : List String) : Option (Call × List RespX) :=
   match ws with
   | "get" :: t :: reg :: b :: mb :: cont :: v :: rest =>
@@ -151,6 +160,10 @@ def runCase : CaseFn := fun c => Id.run do
   let mut fhs : List Nat := (List.range (ftip + 1)).map (· + 1)
   let mut diverged := false
   let mut recommitted := false
+  -- the lowest height from which filter headers were ever re-committed in this case
+  let mut rcMin : Nat := 0
+  -- (block, filter) pairs the harness has seen matching the committed headers at some earlier moment
+  let mut okOnce : List (Nat × Nat) := []
   let mut before : Before := { cache := [], db := [] }
   if maxR != maxRange then
     out := out.push s!"DIFF C05 case {c.num} line 0: wire.MaxGetCFiltersReqRange is {maxR}, the model assumes {maxRange}"
@@ -163,6 +176,7 @@ def runCase : CaseFn := fun c => Id.run do
       let nf := ids.map nat!
       fhs := fhs.take (nat! h) ++ nf
       st := step (hashingOf []) st (.recommit (nat! h) nf)
+      rcMin := if recommitted then min rcMin (nat! h) else nat! h
       recommitted := true
     | "getreorg" :: fork :: btip :: bftip :: rest =>
       -- the real stores were reorganised onto another branch right after FetchHeader(hash)
@@ -206,14 +220,23 @@ def runCase : CaseFn := fun c => Id.run do
       match parseCall ws, parseObs obs with
       | some (call, xs), some o =>
         let best := min tip (fhs.length - 1)
-        let tags := oracle fhs best maxR call xs before o
-        -- mismatches confined to entries that were stored before the headers were re-committed
-        let oldC := fun (e : CEntry) => before.cache.any (fun b => b.blk == e.blk && b.fid == e.fid)
-        let oldD := fun (e : DEntry) => before.db.any (fun b => b.blk == e.blk && b.fid == e.fid)
+        -- what concurrent writers committed during the call (environment input): judged like everything
+        -- else in the dumps (flag v), and known to the provenance clauses as "was there"
+        let bgws := parseBg ws
+        let beforeO : Before := { before with db := before.db ++ bgws.map (fun p => ⟨p.1, p.2, true⟩) }
+        let tags := oracle fhs best maxR call xs beforeO o
+        -- The recorded finding, and nothing else: a mismatching entry sits where it sat before (the cache
+        -- entry was in the cache, the database entry in the database, the returned filter in either, for
+        -- the SAME block with the SAME bytes), it matched the headers committed at an earlier moment, and
+        -- the headers of its block were re-committed since.  A filter that reaches the cache from
+        -- anywhere else, other bytes than were stored, or a mismatch nobody ever verified is not it.
+        let wasOk := fun (blk fid : Nat) => okOnce.any (fun p => p.1 == blk && p.2 == fid) && recommitted && decide (rcMin ≤ blk)
+        let oldC := fun (e : CEntry) => before.cache.any (fun b => b.blk == e.blk && b.fid == e.fid) && wasOk e.blk e.fid
+        let oldD := fun (e : DEntry) => before.db.any (fun b => b.blk == e.blk && b.fid == e.fid) && wasOk e.blk e.fid
         let stale := recommitted && o.cache.all (fun e => e.v || oldC e) && o.db.all (fun e => e.v || oldD e) &&
           (match o.result with
-           | .ret fid v _ => v || before.cache.any (fun b => b.blk == call.target && b.fid == fid) ||
-                           before.db.any (fun b => b.blk == call.target && b.fid == fid)
+           | .ret fid v _ => v || ((before.cache.any (fun b => b.blk == call.target && b.fid == fid) ||
+                           before.db.any (fun b => b.blk == call.target && b.fid == fid)) && wasOk call.target fid)
            | .err _ => true)
         for tag in tags do
           let isMismatch := tag == "returned-mismatch" || tag == "cached-mismatch" || tag == "persisted-mismatch"
@@ -221,8 +244,10 @@ def runCase : CaseFn := fun c => Id.run do
           let why := if isMismatch then "a filter the code returned / cached / persisted does not hash-chain to the stored filter header of THAT block: H(filterhash, header(h-1)) != header(h), recomputed by the harness from the real bytes; " else ""
           out := out.push s!"ORACLE-FAIL C05 case {c.num} line {ln}: [shape={shape} ] ({tag}) {why}{(op.take 160).toString} => {(obs.take 200).toString}"
         before := { cache := o.cache, db := o.db }
+        okOnce := okOnce ++ ((o.cache.filter (·.v)).map (fun e => (e.blk, e.fid))).filter (fun p => !okOnce.contains p)
+        okOnce := okOnce ++ ((o.db.filter (·.v)).map (fun e => (e.blk, e.fid))).filter (fun p => !okOnce.contains p)
         if !diverged then
-          let m := getCFilter (hashingOf xs) st call
+          let m := if bgws.isEmpty then getCFilter (hashingOf xs) st call else getCFilterW true id (hashingOf xs) st call bgws
           st := m.st
           -- what the model hands to the batch writer: the accepted responses, in order
           let mputs := if persist then
